@@ -17,4 +17,28 @@ CLAIMS = {
     },
 }
 
+CLAIMS["C07"] = {
+    "text": "Machine-checked proof (Lean 4) over the executable model, for ALL byte strings: whenever decoding succeeds, skipping succeeds "
+            "and stops at exactly the same byte (skip_of_decode, len_eq); skipping succeeds exactly when decoding without UTF-8 validation "
+            "does (skip_iff_decode_no_utf8), nesting errors coincide (skip_tooDeep_iff); decode/skip/kind never exhaust their recursion budget "
+            "on any input (decode_total, skip_total, kind_total); a decoded value is never larger than the bytes it came from (decode_size). "
+            "The skip widths/modes of Deserializer::skip and KeyTagImpl::skip are regenerated from the source on every run and are proof "
+            "obligations (key_skip_table, skipKey_restOf). Tie: differential runs of decode / len / kind / opaque split of the real code "
+            "against the compiled model on valid encodings, mutants, truncations and random bytes.",
+    "note": CODEC_NOTE + " Absence of panics, out-of-bounds reads and the actual allocation behaviour of the Rust code are observed by the "
+            "harness (catch_unwind on every case), not proved: partial on that clause.",
+    "design_ref": "DESIGN.md section 6 C07",
+}
+CLAIMS["C13"] = {
+    "text": "Machine-checked proof (Lean 4): the converter equals 'decode without UTF-8 validation, then write the legacy encoding' "
+            "(conv_dec_all, convert_is_reencode); hence converting a well-formed value to a pre-1.20 version succeeds and the result decodes "
+            "to the same value both with the current decoder and with a decoder to which kinds 43..65 do not exist (convert_preserves), "
+            "same-or-newer epoch is the identity (convert_same_or_newer), conversion is idempotent (convert_idem), fails only for bad "
+            "versions / undecodable input (convert_fails_only_if, convert_bad_version) and never exhausts its budget (convert_total). The epoch "
+            "table is regenerated from convert_value.rs (epoch_table). Tie: SerializedValueSlice::convert of the real code vs. the model over "
+            "9 from/to versions on valid encodings of both epochs, mutants and random bytes.",
+    "note": CODEC_NOTE + " Hypothesis bs.length <= u32::MAX mirrors the Overflow branch of the code (element count >= 2^32).",
+    "design_ref": "DESIGN.md section 6 C13",
+}
+
 NOT_APPLICABLE = {}
